@@ -16,6 +16,9 @@ def plog_pipeline(ck, eng, ntraces, proofs_ok):
     # the grid: what happens to the included list x whether the NodeHost misses reports; then PRNG fleets
     traces = [sp.gen_plog_trace(ck.rng, eng.ttl, eng.step, kind=k, mode=m) for _ in range(1 if ck.tier == "quick" else 20)
               for k in sp.PLOG_EVENTS for m in sp.PLOG_MODES]
+    # big lists (around 32 records and beyond) replaced by a list of the same / another length BETWEEN two reports processed at the same logical time
+    traces += [sp.gen_plog_trace(ck.rng, eng.ttl, eng.step, kind=k, mode=ck.rng.choice(sp.PLOG_MODES), nrec=n, twice=True)
+               for _ in range(1 if ck.tier == "quick" else 20) for n in sp.PLOG_SIZES for k in ("swap", "remove")]
     traces += [sp.gen_plog_trace(ck.rng, eng.ttl, eng.step) for _ in range(ntraces)]
     if proofs_ok:
         results, _ = dbprops.run_db_property(ck, deng, traces, [sp.mon_plog_db])
@@ -37,12 +40,15 @@ def run(ck):
                       "hosting / unknown-region) x 2 region patterns x defined size in {members-1, members} (quick: the 5-member part is sampled); "
                       "plus PRNG contexts with 1..4 shards sharing 3..8 NodeHosts, kill lists, undefined shards; scripted random source. "
                       "Id alphabets: about a third of the contexts use replica / shard ids id + k*stride, stride in {100000, 2^32, 2^16} (repair hands out "
-                      "random 64 bit ids), with persisted-log entries CONGRUENT modulo the stride to the member living on that NodeHost. Sequences: "
+                      "random 64 bit ids), with persisted-log entries CONGRUENT modulo the stride to the member living on that NodeHost; prefix-related addresses "
+                      "(a1 / a11 / a115) with shard ids such that address+shard, or shard+replica, read the same when concatenated. Sequences: "
                       "2..4 related rounds for one shard (restore / join CREATE, then member removed / added and version bumped, then restore again) and "
                       "the PRNG contexts in groups of 3 run on ONE long-lived scheduler object, as Drummer does; every round is judged by its own context. "
                       "Persisted-log pipeline: fleets reporting every round through the REAL DB for more than a timeout; a member's replica stops being reported while "
                       "its NodeHost never misses a report / returns after a gap > ttl / <= ttl; its INCLUDED persisted-log lists (every 1st..3rd report) keep the record, "
-                      "lose it, become empty, name other replicas only, or become empty and get the record back; DB side: NodeHost record's log set = most recent "
+                      "lose it, become empty, name other replicas only, swap it for another record (same length), or become empty and get the record back; lists of 31 / 32 / 33 / 40 / 100 "
+                      "records; two reports of one NodeHost at the same logical time with different lists and a scheduling round after each; ShardIdLists naming shards unknown "
+                      "to the view; a leader flag left on the failed member; DB side: NodeHost record's log set = most recent "
                       "included list (monitor + DB model); scheduler side: the rounds of a fleet on one scheduler object, restore targets judged against the report history. "
                       "Non-trivial = the round produced a request, an error or a panic; distinct by md5 of the context line.")
     import time
@@ -66,6 +72,7 @@ def run(ck):
         if not quick:   # thorough: the whole small-id grid above, plus a re-mapped sample of it
             big, _ = se.gen_one_shard(ck, eng.ttl, eng.step, 5, 30000, big_ids=1.0)
             ctxs += big
+        ctxs += se.gen_prefix_ctxs(rng, eng.ttl, eng.step)     # addresses / ids whose decimal renderings collide when concatenated
         # sequences of related rounds on one scheduler object
         for k in range(350 if quick else 6000):
             ctxs += se.gen_sequence(rng, eng.ttl, eng.step, stride=rng.choice([0, 0] + se.STRIDES))
@@ -76,7 +83,9 @@ def run(ck):
                 c["chain"] = 1
                 c["tag"] += "/chained"
         ctxs += rnd
-        pipe = plog_pipeline(ck, eng, 25 if quick else 1200, proofs_ok)
+        tp = time.time()
+        pipe = plog_pipeline(ck, eng, 18 if quick else 1200, proofs_ok)
+        ck.cov["timing"]["plog_pipeline_db_s"] = round(time.time() - tp, 1)
         if pipe is None or ck.violations:
             return
         ctxs += pipe
